@@ -170,6 +170,32 @@ def explore(ctx):
                 failures.append({'kind': 'corr', 'what': r['corr'], 'payload': payload(r)})
         if len(stages) >= 3 and ra and rb:
             nontrivial.add(AB['case'].query + '\0' + AB['case'].inp.decode('utf8', 'replace'))
+    # lines far longer than their neighbours (8 KiB .. 70 KiB; reader buffers are reused from line to line), on the
+    # implementation alone (the model's text functions are quadratic in the line length): the rows produced for the
+    # short lines are what they are without the long one
+    long_checked = 0
+    ljobs = []
+    lmeta = []
+    for i in range(24 if quick else 300):
+        ra = gen.gen_rows(rng, rng.randint(1, 5), rich=False)
+        rb = gen.gen_rows(rng, rng.randint(1, 5), rich=False)
+        for j, r in enumerate(rb):
+            r['id'] = 1000 + j
+        x = {'id': 5000, 'k': 'long', 'zpad': rng.choice('pq') * rng.choice([8190, 8193, 9000, 20000, 70000])}
+        q = rng.choice(['* | json | fields id, k', '* | parse "\\"id\\": *," as id', '* | json | where id >= 0 | fields id', 'long | json | fields id', '"id" | json | fields id, k'])
+        la, lb, lx = [gen.jtext(r) for r in ra], [gen.jtext(r) for r in rb], [gen.jtext(x)]
+        for part in (la, lb, lx, la + lx + lb, lx + lb):
+            ljobs.append((q, ''.join(part).encode('utf8'), 'json', ()))
+        lmeta.append((q, la, lb, lx))
+    louts = aglib.run_impl_many(ljobs)
+    for gi, (q, la, lb, lx) in enumerate(lmeta):
+        oa, ob, ox, oaxb, oxb = [o['out'] for o in louts[gi * 5:gi * 5 + 5]]
+        long_checked += 1
+        if any(o['rc'] != 0 or o['timed_out'] for o in louts[gi * 5:gi * 5 + 5]):
+            failures.append({'kind': 'spec', 'what': 'a pipeline over a long line did not run cleanly', 'payload': {'query': q, 'line_lengths': [len(l) for l in la + lx + lb]}})
+        elif oaxb != oa + ox + ob or oxb != ox + ob:
+            failures.append({'kind': 'spec', 'what': 'a %d-byte line changed the rows produced for the lines around it: %r, without it %r' % (len(lx[0]), oaxb[-300:], (oa + ob)[-300:]),
+                             'payload': {'query': q, 'input_lines': la + lx + lb, 'mode': 'json'}})
     hist = {}
     for _s, stages, _a, _b in groups:
         for s in stages[1:]:
@@ -178,7 +204,7 @@ def explore(ctx):
     for r in results:
         kinds[r['model']['kind']] = kinds.get(r['model']['kind'], 0) + 1
     cov = {
-        'evaluations': len(cases),
+        'evaluations': len(cases) + long_checked, 'long_line_groups': long_checked,
         'distinct_nontrivial': len(nontrivial),
         'rule': 'pipelines json | 1..4 stateless operators over {where, field expression, fields, split, json from, logfmt from, parse from}; inputs A, B, A++B, A++[x]++B '
                 'and x alone (x a fresh row or a non-JSON line); non-trivial = >=2 operators with A and B non-empty',
